@@ -42,7 +42,8 @@ theorem div_nxm_u64_spec (num ds : List ℕ)
     let out := divNxmArr T U num ds d (recip2Spec (2 ^ 64) d)
     val (2 ^ 64) num = val (2 ^ 64) out.1 * val (2 ^ 64) ds + val (2 ^ 64) out.2
     ∧ val (2 ^ 64) out.2 < val (2 ^ 64) ds
-    ∧ out.1.length = num.length ∧ out.2.length = ds.length := by
+    ∧ out.1.length = num.length ∧ out.2.length = ds.length
+    ∧ AllLt (2 ^ 64) out.1 ∧ AllLt (2 ^ 64) out.2 := by
   intro sh T U d out
   have hk : ds.length - 1 < ds.length := by omega
   have he1lt : ds.getD (ds.length - 1) 0 < 2 ^ 64 := by
